@@ -20,7 +20,10 @@ pub fn replay(case: &Value) -> Vec<Obs> {
         }
     }
     let path = format!("reader_tmp_{}.txt", std::process::id());
-    let mut text = lines.join("\n"); text.push('\n');
+    // (every other layout is written without the final newline, every fifth with Windows line ends)
+    let mut text = lines.join("\n");
+    if text.len() % 2 == 0 { text.push('\n'); }
+    if text.len() % 5 == 0 { text = text.replace('\n', "\r\n"); }
     if std::fs::write(&path, &text).is_err() { return vec![Obs::bad("TOOL", "write", path)]; }
     let mut kb = KnowledgeBase::new();
     let res = catch_unwind(AssertUnwindSafe(|| load_kb_from_file(&mut kb, &path)));
